@@ -5,7 +5,8 @@ from props import common
 from props.c05 import rand_layout, parse_secs
 
 LEAN_MODULE = 'Beeb.Props.C06'
-LEAVES = ['crc_cycle']
+LEAN_MODULES = ['Beeb.Props.C06', 'Beeb.Props.C05c']
+LEAVES = ['crc_cycle', 'reverse_bit_order', 'pictrack_len', 'is_hfe3_opcode', 'hfe_le_word', 'hxc_le_word', 'hxc_le_quad', 'bitstream_raw_pos']
 RULE = ('valid FM/MFM tracks (random gaps, orders; all sector contents distinct) subjected to damage: 1-3 bit flips, odd numbers of flips and single bursts <= 16 bits '
         '(all guaranteed to be caught by CRC-16/CCITT) inside chosen ID or data fields, bit insertions/deletions (slips), zeroed runs, truncation, damage to the ID of '
         'one sector so that the next data field follows it; plus random bit streams. (a) in-process: real decoders vs Lean decoders, and the oracle on the real '
